@@ -43,6 +43,9 @@ type pipeState struct {
 	dead      bool        // link cut: reads drain then EOF, writes fail
 	blackhole [2]bool     // what this side writes from now on is silently lost
 	reset     bool        // undelivered data dropped, reads fail with an I/O error
+	stall     [2]bool     // this side's output stays in its buffered writer (the peer has stopped reading, the socket is full): writes return at once, nothing reaches the peer, Close waits for the flush
+	held      [2][][]byte // what this side has written while stalled
+	halfShut  [2]bool     // this side has shut down its sending direction (FIN): the peer drains and reads EOF, the other direction is unchanged
 	wire      []Frame
 	nw        [2]int // frames written per direction
 	cutAfter  [2]int // cut the link after the k-th frame of this direction was delivered (0 = never)
@@ -106,7 +109,7 @@ func (e *PipeEnd) ReadMessage(buf []byte) ([]byte, error) {
 		return e.readNonblock(buf)
 	}
 	vs.BlockObj(e.wRead, &p.obj[e.side], func() bool {
-		return len(*e.inq()) > 0 || p.closed[e.side] || p.closed[1-e.side] || p.dead || p.reset
+		return len(*e.inq()) > 0 || p.closed[e.side] || p.closed[1-e.side] || p.dead || p.reset || p.halfShut[1-e.side]
 	})
 	return e.take(buf)
 }
@@ -166,6 +169,11 @@ func (e *PipeEnd) WriteMessage(b []byte) error {
 			return errInjectedWrite
 		}
 	}
+	if p.stall[e.side] {
+		// buffered output that does not reach the socket: the writer accepts it and returns
+		p.held[e.side] = append(p.held[e.side], append([]byte(nil), b...))
+		return nil
+	}
 	if p.blackhole[e.side] {
 		// a peer that has gone silent (a half-open connection): what this side writes is lost, nobody is told
 		return nil
@@ -186,9 +194,28 @@ func (e *PipeEnd) WriteMessage(b []byte) error {
 	return nil
 }
 
+// Unstall: the peer reads again; what was held back is delivered in order.
+func (e *PipeEnd) Unstall() {
+	p := e.p
+	p.stall[e.side] = false
+	for _, m := range p.held[e.side] {
+		p.nw[e.side]++
+		p.q[e.side] = append(p.q[e.side], m)
+		p.wire = append(p.wire, Frame{Dir: e.side, Data: m, Step: vs.Steps()})
+	}
+	p.held[e.side] = nil
+}
+
 // Close closes this end: its own reads and writes fail, the peer drains and then reads EOF.
 func (e *PipeEnd) Close() error {
-	vs.BlockObj(e.wClose, &e.p.obj[e.side], nil)
+	if p := e.p; p.stall[e.side] {
+		// closing a buffered writer flushes it first: it waits until the socket takes the data (or fails)
+		vs.BlockObj(e.wClose, &p.obj[e.side], func() bool {
+			return !p.stall[e.side] || len(p.held[e.side]) == 0 || p.dead || p.reset || p.closed[1-e.side]
+		})
+	} else {
+		vs.BlockObj(e.wClose, &e.p.obj[e.side], nil)
+	}
 	e.closes++
 	if !e.p.closed[e.side] {
 		e.p.closed[e.side] = true
